@@ -157,13 +157,13 @@ func (tc *TypeConverter) TypeToExpr(t types.Type) ast.Expr {
 			pkgPath := obj.Pkg().Path()
 			pkgName := obj.Pkg().Name()
 			actualName := tc.AddImport(pkgPath, pkgName)
-			return &ast.SelectorExpr{
+			return tc.instantiate(&ast.SelectorExpr{
 				X:   ast.NewIdent(actualName),
 				Sel: ast.NewIdent(obj.Name()),
-			}
+			}, typ.TypeArgs())
 		}
 		// Same package - just use the type name
-		return ast.NewIdent(obj.Name())
+		return tc.instantiate(ast.NewIdent(obj.Name()), typ.TypeArgs())
 	case *types.Pointer:
 		return &ast.StarExpr{X: tc.TypeToExpr(typ.Elem())}
 	case *types.Slice:
@@ -202,6 +202,22 @@ func (tc *TypeConverter) TypeToExpr(t types.Type) ast.Expr {
 	default:
 		return ast.NewIdent(t.String())
 	}
+}
+
+// instantiate appends the type arguments of an instantiated generic type (Box[int], Pair[K, V]).
+// A generic type cannot be used without them.
+func (tc *TypeConverter) instantiate(expr ast.Expr, typeArgs *types.TypeList) ast.Expr {
+	if typeArgs == nil || typeArgs.Len() == 0 {
+		return expr
+	}
+	indices := make([]ast.Expr, 0, typeArgs.Len())
+	for i := 0; i < typeArgs.Len(); i++ {
+		indices = append(indices, tc.TypeToExpr(typeArgs.At(i)))
+	}
+	if len(indices) == 1 {
+		return &ast.IndexExpr{X: expr, Index: indices[0]}
+	}
+	return &ast.IndexListExpr{X: expr, Indices: indices}
 }
 
 // lastPathElement returns the last element of an import path.
